@@ -307,6 +307,23 @@ def run(prog, rep, tier):
                 rep.violation(R196, inst, "%s: after writing %s to stdout the printed count grows by the length of %s" % (p.split("::")[-1], sorted(xr), sorted(adds[0])))
     rep.floor(R196, 20)
 
+    # ------------------------------------------------------------ R19.9 every byte that reaches stdout is counted - also the colour escapes
+    # In the colour variants the printers call termcolor's set_color()/reset() on the stdout stream;
+    # those calls write escape sequences to stdout whose length nothing adds to `printed`.  With
+    # --color=always "Printed bytes" is therefore smaller than what stdout received.
+    R199 = rep.rule("R19.9", "escape sequences written by set_color/reset on stdout are part of the printed byte count")
+    esc_fns = {}
+    for pb in prog.bodies():
+        if "printer::printers::PrinterLogMessage::print_" not in pb.path or "{closure" in pb.path:
+            continue
+        k_ = [c for c in pb.live_calls() if (c.o.endswith("WriteColor::set_color") or c.o.endswith("WriteColor::reset")) and "StandardStream" in (c.callee.get("self") or "")]
+        if k_:
+            esc_fns[pb.path.split("::")[-1]] = len(k_)
+    rep.examined(R199, "PrinterLogMessage|colour-escapes", sample={"colour_printers": len(esc_fns), "set_color_or_reset_calls_on_stdout": sum(esc_fns.values())})
+    if esc_fns:
+        rep.violation(R199, "PrinterLogMessage|colour-escape-bytes-unaccounted", "the %d colour printers write escape sequences to stdout through set_color()/reset() (%d call sites) and none of those bytes is added to the printed count; "
+                      "`s4 --color=always --summary a.log`: 110 bytes on stdout, 'Printed bytes: 28'" % (len(esc_fns), sum(esc_fns.values())))
+
     # ------------------------------------------------------------ R19.8
     R198 = rep.rule("R19.8", "first/last printed datetime are the running minimum/maximum on every path")
     import accum
